@@ -440,8 +440,8 @@ func cellValueAt(a *ssa.Alloc, load *ssa.UnOp) ssa.Value {
 		if st == best || dominates(st, best) {
 			continue
 		}
-		// st is not before best: it must not be able to reach the load
-		if reaches(st, load) {
+		// st is not before best: it must not be able to reach the load without passing best again (loops)
+		if reaches(st, load) && pathAvoiding(load.Parent(), st, func(x ssa.Instruction) bool { return x == ssa.Instruction(load) }, func(x ssa.Instruction) bool { return x == ssa.Instruction(best) }) != nil {
 			return nil
 		}
 	}
@@ -500,6 +500,14 @@ func origin(v ssa.Value) ssa.Value {
 					if s := cellValueAt(a, x); s != nil {
 						v = s
 						continue
+					}
+					// read inside a function literal: the value the captured variable holds when the literal is created,
+					// if nothing can overwrite it afterwards
+					if fv, isFV := x.X.(*ssa.FreeVar); isFV {
+						if s := capturedValue(a, fv); s != nil {
+							v = s
+							continue
+						}
 					}
 				}
 				// field of a local, non-escaping struct variable
@@ -1468,4 +1476,74 @@ func localFieldValue(sv ssa.Value, field int, at ssa.Instruction) ssa.Value {
 		return nil
 	}
 	return storedFieldValue(a, field, u)
+}
+
+// capturedValue: the value variable a (kept in memory because the literal fv belongs to captures it) holds inside that
+// literal: the latest store dominating the literal's creation, provided no other store can reach the creation without
+// passing it and no store can follow the creation before the variable is re-allocated (next loop iteration).
+func capturedValue(a *ssa.Alloc, fv *ssa.FreeVar) ssa.Value {
+	lit := fv.Parent()
+	parent := a.Parent()
+	if lit.Parent() != parent {
+		return nil
+	}
+	var mk ssa.Instruction
+	n := 0
+	allInstrsLocal(parent, func(in ssa.Instruction) {
+		if m, ok := in.(*ssa.MakeClosure); ok && m.Fn == ssa.Value(lit) {
+			mk = m
+			n++
+		}
+	})
+	if mk == nil || n != 1 {
+		return nil
+	}
+	var stores []*ssa.Store
+	for _, r := range *a.Referrers() {
+		switch x := r.(type) {
+		case *ssa.Store:
+			if x.Addr != ssa.Value(a) {
+				return nil
+			}
+			stores = append(stores, x)
+		case *ssa.UnOp, *ssa.DebugRef:
+		case *ssa.MakeClosure:
+			if !closureOnlyReads(x, a) {
+				return nil
+			}
+		default:
+			return nil
+		}
+	}
+	var best *ssa.Store
+	for _, st := range stores {
+		if dominates(st, mk) && (best == nil || dominates(best, st)) {
+			best = st
+		}
+	}
+	if best == nil {
+		return nil
+	}
+	isMk := func(x ssa.Instruction) bool { return x == mk }
+	isBest := func(x ssa.Instruction) bool { return x == ssa.Instruction(best) }
+	isAlloc := func(x ssa.Instruction) bool { return x == ssa.Instruction(a) }
+	for _, st := range stores {
+		if st == best {
+			continue
+		}
+		cur := st
+		isSt := func(x ssa.Instruction) bool { return x == ssa.Instruction(cur) }
+		// reaches the creation without passing best
+		if !dominates(st, best) && pathAvoiding(parent, st, isMk, isBest) != nil {
+			return nil
+		}
+		// can follow the creation while the same variable instance is alive
+		if pathAvoiding(parent, mk, isSt, isAlloc) != nil {
+			return nil
+		}
+	}
+	if pathAvoiding(parent, mk, isBest, isAlloc) != nil {
+		return nil
+	}
+	return best.Val
 }
